@@ -609,9 +609,18 @@ def run(ck, facts):
     for f in tool.fn_list:
         if "hir" not in f:
             continue
-        for lp in C.walk(C.fn_body(f)):
-            if lp.get("k") != "for" or not any(x.get("k") == "field" and x.get("n") == "borrowed_struct_lifetime_map" for x in C.walk(lp["iter"])):
-                continue
+        def loops_over(root, src_pred):
+            """iterations over a source: `for P in <src> {B}` and `<src>..map(|P| B)` (for_each / flat_map / filter_map alike), as {"pat", "body", "ln"}"""
+            out_ = []
+            for y in C.walk(root):
+                if y.get("k") == "for" and src_pred(y["iter"]):
+                    out_.append({"pat": y.get("pat"), "body": y["body"], "ln": y.get("ln")})
+                elif y.get("k") == "mcall" and y.get("m") in ("map", "for_each", "flat_map", "filter_map") and y.get("a") and C.strip(y["a"][0]).get("k") == "closure" and src_pred(y["recv"]):
+                    cl = C.strip(y["a"][0])
+                    ps_ = cl.get("params") or []
+                    out_.append({"pat": ps_[0] if ps_ else {}, "body": cl["body"], "ln": y.get("ln")})
+            return out_
+        for lp in loops_over(C.fn_body(f), lambda e_: any(x.get("k") == "field" and x.get("n") == "borrowed_struct_lifetime_map" for x in C.walk(e_))):
             pat = lp.get("pat") or {}
             subs = pat.get("sub") or []
             if pat.get("k") != "tuple" or len(subs) != 2 or subs[0].get("k") != "bind":
@@ -621,9 +630,8 @@ def run(ck, facts):
             vals_id = subs[1].get("id")
             # locals bound by iterating the value set
             val_elems = set()
-            for inner in C.walk(lp["body"]):
-                if inner.get("k") == "for" and any(x.get("k") == "local" and x.get("id") == vals_id for x in C.walk(inner["iter"])):
-                    val_elems |= C.pat_bind_ids(inner.get("pat"))
+            for inner in loops_over(lp["body"], lambda e_: any(x.get("k") == "local" and x.get("id") == vals_id for x in C.walk(e_))):
+                val_elems |= C.pat_bind_ids(inner.get("pat"))
             # the set of use-site lifetimes of a slot is consumed whole: only by iterating all of it (never `.next()`, `.first()`, `.take(n)` ...)
             TRUNC = {"next", "first", "last", "take", "nth", "skip", "find", "min", "max", "step_by", "filter", "next_back", "pop_first", "pop_last", "take_while", "skip_while", "position", "find_map"}
             for x in C.walk(lp["body"]):
